@@ -194,6 +194,24 @@ CHECKS["C20"] = dict(
     technique="Coq proof on regenerated data (vm_compute, Coq-Interval, MVT) + load/sweep/round-trip runs of every variant",
     design="4/C20")
 
+CHECKS["C05"] = dict(
+    text="Theorems: the six stored components, stacked in the generated order with sqrt(2) on the generated shear slots and "
+         "unpacked through the generated Mandel index table, give back the stress tensor (and without the factor they do not: "
+         "the pinned code is refuted); trace, trace of the square and of the cube of a symmetric tensor are unchanged by every "
+         "rotation about a coordinate axis (nsatz), hence the characteristic polynomial and the principal values; for any "
+         "non-negative element volumes and clamped principal values the PIA log-reliability is <= 0, exp of it lies in (0,1], "
+         "is 0 for compressive states, linear in volume, homogeneous of degree m in the stresses and antitone under scaling "
+         "by s >= 1 (real powers, Coquelicot); exp turns multiplier-weighted sums into products of powers (aggregation).  The "
+         "tables are regenerated from damage.py on every run.  Tied to the code by metamorphic runs of determine_reliability "
+         "for all eight models on synthetic receivers: rotated axes, range, compressive states, scaling, service time, "
+         "doubled volume, zero-service-time homogeneity, uniaxial reduction, tube/panel aggregation.",
+    note="partial: the orientation integrals, equivalent stresses and the time-dependent g-factor of the seven other models are "
+         "covered by the metamorphic runs only; principal values are characterised through the invariants (numpy eigvalsh trusted); "
+         "the uniaxial reduction of the six crack-shape-dependent models is checked up to the 121x121 quadrature error "
+         "(1.5% + 0.2% per unit of modulus); all-zero time arrays with more than one point are not exercised.",
+    technique="Coq proof (Q + nsatz for invariants, R/Coquelicot for the Weibull laws) + generated tables + metamorphic differential runs",
+    design="4/C05")
+
 NOT_YET = {}
 
 def main():
